@@ -1,4 +1,4 @@
-/-! # asyncPages (page.go:121-323, line numbers of the tree that contains the verif trace hook) as a labelled transition system
+/-! # asyncPages (page.go:121-328, line numbers of the tree that contains the verif trace hook and the negative-index guard of SeekToRow, page.go:219-223; row indexes are therefore `Nat`) as a labelled transition system
 
 MIRROR of `page.go` (every transition carries the `file:line` it transliterates), plus a ghost
 *sequential reader* (`spec`) and ghost ownership lists (`released`, `handed`) that no transition
@@ -8,7 +8,7 @@ Two processes share three channels and nothing else:
 
 * the **consumer** (the goroutine calling `ReadPage`, `SeekToRow`, `Close`; the methods are not
   safe for concurrent use, so there is one consumer), program counter `CPc`;
-* the **producer** (`readPages`, page.go:248-319), program counter `PPc`;
+* the **producer** (`readPages`, page.go:253-324), program counter `PPc`;
 * `read` (unbuffered, page.go:122): a rendezvous, modelled as one joint step (`handoff`,
   `closeRecv`, `closeFinal`); `seek` (capacity 1, page.go:123): `seekCh : Option (row × version)`;
   `init`/`done` (closed once, page.go:124-125): `initClosed`/`doneClosed`.
@@ -23,11 +23,11 @@ The wrapped `Pages` value is abstracted to `Under`: a position (a row index), `r
 this is C08's abstraction of `FilePages`). A page is identified by the position it was read from.
 
 Granularity decisions (each merges steps no other process can observe in between):
-`pages.start()` (page.go:241-246) is merged into the step that precedes/follows it (`readBegin`,
+`pages.start()` (page.go:246-251) is merged into the step that precedes/follows it (`readBegin`,
 `seekSend`) because while `init` is open the producer is blocked on it and when it is closed
 `start` is a no-op; `close(init); close(done)` (page.go:165-172) is one step because a producer that
 has seen `init` but not yet `done` behaves like one that has not looked at `done` yet; the deferred
-`read <- final; close(read)` (page.go:250-252) is one step; the consumer's receive and its version
+`read <- final; close(read)` (page.go:255-257) is one step; the consumer's receive and its version
 test are SEPARATE steps (`handoff` then `deliver`/`drop`), so the producer may run in between. -/
 namespace PqModel.Async
 
@@ -35,8 +35,8 @@ namespace PqModel.Async
 inductive Res where
   | page (pos : Nat)   -- a page, read from position `pos`, nil error
   | eof                -- (nil, io.EOF)
-  | soft (code : Nat)  -- (nil, err) with err recoverable: `ErrSeekOutOfRange` (page.go:322)
-  | fatal (code : Nat) -- (nil, err) with `isFatalError err` (page.go:321-323)
+  | soft (code : Nat)  -- (nil, err) with err recoverable: `ErrSeekOutOfRange` (page.go:327)
+  | fatal (code : Nat) -- (nil, err) with `isFatalError err` (page.go:326-328)
 deriving DecidableEq, Repr
 
 inductive Rd where | page | eof | fatal (code : Nat)
@@ -52,7 +52,7 @@ structure Under where
   sk   : Nat → Sk
 
 /-- the variables that drive the producer's loop body: the position of the wrapped reader,
-    `seekTo.rowIndex` (`none` = -1, page.go:278,293) and the sticky fatal `err` (page.go:282,289).
+    `seekTo.rowIndex` (`none` = -1, page.go:283,298) and the sticky fatal `err` (page.go:287,294).
     The ghost sequential reader has the same shape. -/
 structure Loc where
   pos  : Nat
@@ -60,20 +60,20 @@ structure Loc where
   ferr : Option Nat
 deriving DecidableEq, Repr
 
-/-- MIRROR page.go:285-300, one iteration of the loop body up to the `select`:
-    `none` = the `continue` of line 295, `some r` = the `(page, err)` offered on `read`. -/
+/-- MIRROR page.go:290-305, one iteration of the loop body up to the `select`:
+    `none` = the `continue` of line 300, `some r` = the `(page, err)` offered on `read`. -/
 def body (U : Under) (l : Loc) : Loc × Option Res :=
   match l.ferr with
-  | some e => (l, some (.fatal e))                                 -- :289 isFatalError(err): skip
+  | some e => (l, some (.fatal e))                                 -- :294 isFatalError(err): skip
   | none =>
     match l.row with
-    | some k =>                                                    -- :290 seekTo.rowIndex >= 0
-      match U.sk k with                                            -- :291
-      | .ok => ({ pos := k, row := none, ferr := none }, none)     -- :292-295
+    | some k =>                                                    -- :295 seekTo.rowIndex >= 0
+      match U.sk k with                                            -- :296
+      | .ok => ({ pos := k, row := none, ferr := none }, none)     -- :297-300
       | .soft c => (l, some (.soft c))                             -- rowIndex stays >= 0: retried
       | .fatal c => ({ l with ferr := some c }, some (.fatal c))
     | none =>
-      match U.rd l.pos with                                        -- :298
+      match U.rd l.pos with                                        -- :303
       | .page => ({ l with pos := U.next l.pos }, some (.page l.pos))
       | .eof => (l, some .eof)
       | .fatal c => ({ l with ferr := some c }, some (.fatal c))
@@ -103,7 +103,7 @@ deriving DecidableEq, Repr
 
 inductive CPc where
   | idle            -- between calls
-  | seekMid         -- in SeekToRow, after the flush `select` (page.go:222-228), before the send (:235)
+  | seekMid         -- in SeekToRow, after the flush `select` (page.go:227-233), before the send (:240)
   | reading         -- in ReadPage, blocked on `<-pages.read` (page.go:190)
   | got (it : Item) -- in ReadPage, received `p`, before the version test (page.go:203)
   | closing         -- in Close, in `for p := range pages.read` (page.go:173)
@@ -111,12 +111,12 @@ inductive CPc where
 deriving DecidableEq, Repr
 
 inductive PPc where
-  | waitInit         -- blocked in the first select (page.go:258-264)
-  | poll             -- before the non-blocking select on seek (page.go:274-280)
-  | top              -- start of the loop body (page.go:284)
-  | send (it : Item) -- in the select of page.go:303-317, offering `it`
-  | final            -- in the deferred function, offering the final item (page.go:250)
-  | exited           -- `read` closed (page.go:252)
+  | waitInit         -- blocked in the first select (page.go:263-269)
+  | poll             -- before the non-blocking select on seek (page.go:279-285)
+  | top              -- start of the loop body (page.go:289)
+  | send (it : Item) -- in the select of page.go:308-322, offering `it`
+  | final            -- in the deferred function, offering the final item (page.go:255)
+  | exited           -- `read` closed (page.go:257)
 deriving DecidableEq, Repr
 
 structure G where
@@ -152,7 +152,7 @@ inductive Step (U : Under) : G → Ev → G → Prop where
   /-- consumer, page.go:186-190: ReadPage calls start() (closes init) and blocks on `read` -/
   | readBegin {g} : g.cpc = .idle →
       Step U g .readBegin { g with cpc := .reading, initClosed := true }
-  /-- page.go:190 with page.go:304-308: rendezvous on `read`; the producer goes round its loop -/
+  /-- page.go:190 with page.go:309-313: rendezvous on `read`; the producer goes round its loop -/
   | handoff {g it} : g.cpc = .reading → g.ppc = .send it →
       Step U g .handoff { g with cpc := .got it, ppc := .top }
   /-- consumer, page.go:203-205: version matches, ReadPage returns `(p.page, p.err)` -/
@@ -164,13 +164,13 @@ inductive Step (U : Under) : G → Ev → G → Prop where
       Step U g (.drop it.ver) { g with cpc := .reading, released := it.id :: g.released }
   /-- consumer, page.go:188-194 after Close: `read` is closed, ReadPage returns io.EOF -/
   | readClosed {g} : g.cpc = .closed → Step U g .readClosed g
-  /-- consumer, page.go:222-224: SeekToRow drains a seek the producer has not taken -/
+  /-- consumer, page.go:227-229: SeekToRow drains a seek the producer has not taken -/
   | seekPollDrain {g kv} : g.cpc = .idle → g.seekCh = some kv →
       Step U g (.seekPoll true) { g with cpc := .seekMid, seekCh := none }
-  /-- consumer, page.go:225-227: nothing to drain, `pages.version++` -/
+  /-- consumer, page.go:230-232: nothing to drain, `pages.version++` -/
   | seekPollBump {g} : g.cpc = .idle → g.seekCh = none →
       Step U g (.seekPoll false) { g with cpc := .seekMid, cver := g.cver + 1 }
-  /-- consumer, page.go:235-238: the (never blocking) send, then start() -/
+  /-- consumer, page.go:240-243: the (never blocking) send, then start() -/
   | seekSend {g k} : g.cpc = .seekMid →
       Step U g (.seekSend k g.cver)
         { g with cpc := .idle, seekCh := some (k, g.cver), initClosed := true, spec := lsSeek k g.spec }
@@ -179,10 +179,10 @@ inductive Step (U : Under) : G → Ev → G → Prop where
   /-- consumer, page.go:163-173: Close closes init and done, then ranges over `read` -/
   | closeBegin {g} : g.cpc = .idle →
       Step U g .closeBegin { g with cpc := .closing, initClosed := true, doneClosed := true }
-  /-- page.go:173-175 with page.go:304-308: Close receives an item and releases it -/
+  /-- page.go:173-175 with page.go:309-313: Close receives an item and releases it -/
   | closeRecv {g it} : g.cpc = .closing → g.ppc = .send it →
       Step U g .closeRecv { g with ppc := .top, released := it.id :: g.released }
-  /-- page.go:173-179 with page.go:250-252: the final item `{err: pages.Close(), version: -1}`
+  /-- page.go:173-179 with page.go:255-257: the final item `{err: pages.Close(), version: -1}`
       is received, `read` is closed -/
   | closeFinal {g} : g.cpc = .closing → g.ppc = .final →
       Step U g .closeFinal { g with ppc := .exited }
@@ -191,32 +191,32 @@ inductive Step (U : Under) : G → Ev → G → Prop where
       Step U g .closeEnd { g with cpc := .closed }
   /-- consumer, page.go:163-184 on a closed reader: nothing to do -/
   | closeAgain {g} : g.cpc = .closed → Step U g .closeAgain g
-  /-- producer, page.go:259 -/
+  /-- producer, page.go:264 -/
   | initPass {g} : g.ppc = .waitInit → g.initClosed = true →
       Step U g .initPass { g with ppc := .poll }
-  /-- producer, page.go:261-263: `return`, the deferred function runs -/
+  /-- producer, page.go:266-268: `return`, the deferred function runs -/
   | initDone {g} : g.ppc = .waitInit → g.doneClosed = true →
       Step U g .initDone { g with ppc := .final }
-  /-- producer, page.go:275: a SeekToRow issued before the first read is picked up -/
+  /-- producer, page.go:280: a SeekToRow issued before the first read is picked up -/
   | pollTake {g k v} : g.ppc = .poll → g.seekCh = some (k, v) →
       Step U g (.pollTake k v)
         { g with ppc := .top, seekCh := none, loc := { g.loc with row := some k }, pver := v }
-  /-- producer, page.go:277-278: `seekTo.rowIndex = -1`, `seekTo.version` is the zero value -/
+  /-- producer, page.go:282-283: `seekTo.rowIndex = -1`, `seekTo.version` is the zero value -/
   | pollEmpty {g} : g.ppc = .poll → g.seekCh = none →
       Step U g .pollEmpty { g with ppc := .top }
-  /-- producer, page.go:289-295: pending seek applied, `continue` -/
+  /-- producer, page.go:294-300: pending seek applied, `continue` -/
   | bodyCont {g l} : g.ppc = .top → body U g.loc = (l, none) →
       Step U g .bodyCont { g with loc := l }
-  /-- producer, page.go:289-308: `(page, err)` computed, offered on `read` tagged `seekTo.version` -/
+  /-- producer, page.go:294-313: `(page, err)` computed, offered on `read` tagged `seekTo.version` -/
   | bodyOffer {g l r} : g.ppc = .top → body U g.loc = (l, some r) →
       Step U g (.bodyOffer r g.pver)
         { g with loc := l, ppc := .send ⟨r, g.pver, g.nprod⟩, nprod := g.nprod + 1 }
-  /-- producer, page.go:310-312: a seek arrives while offering: Release(page), new seekTo -/
+  /-- producer, page.go:315-317: a seek arrives while offering: Release(page), new seekTo -/
   | selTake {g it k v} : g.ppc = .send it → g.seekCh = some (k, v) →
       Step U g (.selTake k v)
         { g with ppc := .top, seekCh := none, loc := { g.loc with row := some k }, pver := v,
                  released := it.id :: g.released }
-  /-- producer, page.go:313-316: done is closed: Release(page), return -/
+  /-- producer, page.go:318-321: done is closed: Release(page), return -/
   | selDone {g it} : g.ppc = .send it → g.doneClosed = true →
       Step U g .selDone { g with ppc := .final, released := it.id :: g.released }
 
